@@ -42,13 +42,30 @@ type Cfg struct {
 	Pat string `json:"pat,omitempty"`
 }
 
-var pats = []string{"", "brace", "list", "sub", "rec"}
+var readOnlyMode = map[string]bool{"dry": true, "status": true, "list": true, "listjson": true, "summary": true, "drydir": true, "dryfailpre": true, "dryforce": true}
+
+var pats = []string{"", "brace", "list", "sub", "rec", "twin"}
 
 func (c Cfg) fileOf(f string) string {
-	if c.Pat == "sub" || c.Pat == "rec" {
+	if c.Pat == "rec" {
+		return filepath.Join("sub", "deep", f+".txt") // matched by ** two levels down
+	}
+	if c.Pat == "sub" {
 		return filepath.Join("sub", f+".txt")
 	}
+	if c.Pat == "twin" {
+		return filepath.Join("tw1", f+".txt")
+	}
 	return f + ".txt"
+}
+
+// twinOf: with the "twin" spelling every source file exists twice, with the same base name and always the same
+// content, in two directories matched by the same pattern; the driver applies every file operation to both copies.
+func (c Cfg) twinOf(f string) string {
+	if c.Pat == "twin" {
+		return filepath.Join("tw2", f+".txt")
+	}
+	return ""
 }
 
 // sourcesYAML renders the sources: list of the fingerprinted tasks.
@@ -64,7 +81,7 @@ func (c Cfg) sourcesYAML() string {
 	case "sub":
 		b.WriteString("      - 'sub/*.txt'\n")
 		ex = "sub/x.txt"
-	case "rec":
+	case "rec", "twin":
 		b.WriteString("      - '**/*.txt'\n")
 		ex = "**/x.txt"
 	default:
@@ -73,6 +90,9 @@ func (c Cfg) sourcesYAML() string {
 	fmt.Fprintf(&b, "      - exclude: '%s'\n", ex)
 	if c.Reinc {
 		fmt.Fprintf(&b, "      - '%s'\n", c.fileOf("x"))
+		if tw := c.twinOf("x"); tw != "" {
+			fmt.Fprintf(&b, "      - '%s'\n", tw)
+		}
 	}
 	return b.String()
 }
@@ -170,7 +190,9 @@ func taskfile(c Cfg) string {
 		if c.Label {
 			b.WriteString("    label: 'same label'\n")
 		}
-		b.WriteString("    cmds:\n      - echo 1 >> \"$TRACE\"\n      - task: pre\n      - test ! -f \"$CTL/cancelsib\" || sleep 2\n      - test ! -f \"$CTL/fail1\"\n      - test ! -f \"$CTL/kill1\" || sh -c 'kill -KILL $PPID'\n")
+		// markers 1 and 2 are the body the specification speaks of; 9 (a deferred command) and 7 (a command
+		// in a loop) only matter in the read-only modes, where nothing at all may run
+		b.WriteString("    cmds:\n      - defer: echo 9 >> \"$TRACE\"\n      - echo 1 >> \"$TRACE\"\n      - for: [x, y]\n        cmd: echo 7 >> \"$TRACE\"\n      - task: pre\n      - test ! -f \"$CTL/cancelsib\" || sleep 2\n      - test ! -f \"$CTL/fail1\"\n      - test ! -f \"$CTL/kill1\" || sh -c 'kill -KILL $PPID'\n")
 		if c.Gen {
 			b.WriteString("      - touch out.gen extra1.gen extra2.gen\n")
 		}
@@ -215,15 +237,22 @@ func Execute(h *History) error {
 	}
 	defer os.RemoveAll(base)
 	proj, ctl, trace := filepath.Join(base, "proj"), filepath.Join(base, "ctl"), filepath.Join(base, "trace")
-	os.MkdirAll(filepath.Join(proj, "sub"), 0o755)
+	os.MkdirAll(filepath.Join(proj, "sub", "deep"), 0o755)
+	os.MkdirAll(filepath.Join(proj, "tw1"), 0o755)
+	os.MkdirAll(filepath.Join(proj, "tw2"), 0o755)
 	os.MkdirAll(ctl, 0o755)
 	os.WriteFile(trace, nil, 0o644)
 	os.WriteFile(filepath.Join(proj, "Taskfile.yml"), []byte(taskfile(h.Cfg)), 0o644)
 	old := time.Now().Add(-time.Hour)
 	for _, f := range []string{"a", "x"} {
-		p := filepath.Join(proj, h.Cfg.fileOf(f))
-		os.WriteFile(p, []byte("1\n"), 0o644)
-		os.Chtimes(p, old, old)
+		for _, rel := range []string{h.Cfg.fileOf(f), h.Cfg.twinOf(f)} {
+			if rel == "" {
+				continue
+			}
+			p := filepath.Join(proj, rel)
+			os.WriteFile(p, []byte("1\n"), 0o644)
+			os.Chtimes(p, old, old)
+		}
 	}
 	tick := func() {
 		if h.Cfg.Method == "timestamp" {
@@ -235,28 +264,35 @@ func Execute(h *History) error {
 	for i := range h.Steps {
 		s := &h.Steps[i]
 		tick()
-		p := filepath.Join(proj, h.Cfg.fileOf(s.F))
-		switch s.Op {
-		case "edit":
-			b, _ := os.ReadFile(p)
-			nb := "2\n"
-			if strings.TrimSpace(string(b)) == "2" {
-				nb = "1\n"
+		for _, cp := range []func(string) string{h.Cfg.fileOf, h.Cfg.twinOf} {
+			if s.Op == "inv" || s.Op == "rmgen" || s.Op == "flip" || cp(s.F) == "" {
+				continue
 			}
-			os.WriteFile(p, []byte(nb), 0o644)
-		case "touch":
-			now := time.Now()
-			os.Chtimes(p, now, now)
-		case "add":
-			os.WriteFile(p, []byte("1\n"), 0o644)
-		case "addold":
-			os.WriteFile(p, []byte("1\n"), 0o644)
-			o := time.Now().Add(-2 * time.Hour)
-			os.Chtimes(p, o, o)
-		case "rm":
-			os.Remove(p)
-		case "ren":
-			os.Rename(p, filepath.Join(proj, h.Cfg.fileOf(s.G)))
+			p := filepath.Join(proj, cp(s.F))
+			switch s.Op {
+			case "edit":
+				b, _ := os.ReadFile(p)
+				nb := "2\n"
+				if strings.TrimSpace(string(b)) == "2" {
+					nb = "1\n"
+				}
+				os.WriteFile(p, []byte(nb), 0o644)
+			case "touch":
+				now := time.Now()
+				os.Chtimes(p, now, now)
+			case "add":
+				os.WriteFile(p, []byte("1\n"), 0o644)
+			case "addold":
+				os.WriteFile(p, []byte("1\n"), 0o644)
+				o := time.Now().Add(-2 * time.Hour)
+				os.Chtimes(p, o, o)
+			case "rm":
+				os.Remove(p)
+			case "ren":
+				os.Rename(p, filepath.Join(proj, cp(s.G)))
+			}
+		}
+		switch s.Op {
 		case "rmgen":
 			os.Remove(filepath.Join(proj, "out.gen"))
 		case "flip":
@@ -360,6 +396,9 @@ func Execute(h *History) error {
 			s.Ran = []int{}
 			for _, ln := range strings.Fields(string(tb[traceLen:])) {
 				n, _ := strconv.Atoi(ln)
+				if (n == 7 || n == 9) && !readOnlyMode[s.Mode] {
+					continue
+				}
 				s.Ran = append(s.Ran, n)
 			}
 			traceLen = len(tb)
